@@ -13,7 +13,7 @@ import math
 
 import numpy as np
 
-from harness import engine
+from harness import engine, memo
 
 PROP = "C17"
 LEVEL = "model_checking"
@@ -192,7 +192,8 @@ def run(rep: engine.Report, tier: str, seed: int):
         rep.record(bycase[e["id"]], fails, nontrivial_key=("split", e["subs"], e["n_set"], e["seed"]))
     rep.count("halfmap_split_events", len(events))
     rep.exhaustive = True
-    rep.traces_validated = len(allc)
+    rep.traces_validated = len(allc) + len(scases)
+    memo.run_family(rep, ["fsc_landscape"])
     rep.samples = [dict(cfg=cases[0]["cfg"], shells=cases[0]["shells"][:3]), {k: v for k, v in lcases[0].items()}]
     rep.rule = (
         "TLC computes exact Gaussian-integer DFTs of integer image pairs on 7 box shapes with lengths in {1,2,4} x 3 shell "
